@@ -437,11 +437,17 @@ impl Core {
             &mut self.signed_peers_routing_table,
         );
 
-        relevant_routing_table.increment_responders_stats(
-            dht_size_estimate,
-            responders_dht_size_estimate,
-            subnets_count,
-        );
+        // Mirror `decrement_cached_iterative_query_stats`: find_node lookups only
+        // contribute to the dht size estimate, not to the storage nodes statistics.
+        if matches!(query.request.request_type, RequestTypeSpecific::FindNode(_)) {
+            relevant_routing_table.increment_dht_size_estimate(dht_size_estimate);
+        } else {
+            relevant_routing_table.increment_responders_stats(
+                dht_size_estimate,
+                responders_dht_size_estimate,
+                subnets_count,
+            );
+        }
 
         // Only for get queries, not find node.
         if !matches!(query.request.request_type, RequestTypeSpecific::FindNode(_)) {
